@@ -425,10 +425,16 @@ pub(crate) mod mirror {
 fn q_ordered_pop_consultation_order() {
     let lv: It = kani::any();
     let sv: Option<It> = kani::any();
-    let (mut gs, mut s0, mut s1) = (GSlots::holding(sv), LSlots::empty(), LSlots::empty());
+    // the real queues hold exactly what the two contract stubs will answer (one local item under any priority,
+    // the shared item - if any - under any other or the same priority): a route to either queue that does not go
+    // through the stubbed functions finds the same items, and is judged by the result
+    let lw: Worker<It> = Worker::new(CAP);
+    let _ = lw.push(lv);
+    let lp: c_longlong = kani::any();
+    let (mut gs, mut s0, mut s1) = (GSlots::holding(sv), LSlots(Some((lp, lw)), None, None), LSlots::empty());
     let q = mk_shared(gs.map(), s0.map(), s1.map());
     let c: u32 = kani::any();
-    let a = mk_local(&q, 0, 0, c);
+    let a = mk_local(&q, 0, 1, c);
     unsafe { STUB_LOCAL = Some(lv); STUB_SHARED = sv; NORDER = 0; }
     let r = a.pop();
     let sixty_first = c.wrapping_add(1) % 61 == 0;
@@ -437,7 +443,7 @@ fn q_ordered_pop_consultation_order() {
     unsafe {
         if sixty_first && sv.is_some() {
             kani::assert(r == sv, "C06.every_61st_pop_serves_the_shared_queue_first");
-            kani::assert(STUB_LOCAL == Some(lv), "C06.local_queue_untouched_when_shared_is_served");
+            kani::assert(STUB_LOCAL == Some(lv) && l_items(a.queue) == 1, "C06.local_queue_untouched_when_shared_is_served");
         } else {
             kani::assert(r == Some(lv), "C06.other_pops_serve_the_local_queue_first");
             kani::assert(g_items(&q.shared_queue) == shared_before, "C06.shared_queue_untouched_when_local_is_served");
